@@ -414,6 +414,22 @@ def probe_kind(e):
     return None
 
 
+def _endpoint_key(kf, module):
+    """'start' / 'stop' for key functions attrgetter("start"), lambda r: r.start, or a module-level name bound to one of these."""
+    if isinstance(kf, ast.Name) and module is not None:
+        for st in module.tree.body:
+            if isinstance(st, ast.Assign) and len(st.targets) == 1 and isinstance(st.targets[0], ast.Name) and st.targets[0].id == kf.id:
+                return _endpoint_key(st.value, None)
+        return None
+    if isinstance(kf, ast.Call) and ast.unparse(kf.func) in ("operator.attrgetter", "attrgetter") and len(kf.args) == 1 and \
+            isinstance(kf.args[0], ast.Constant):
+        return kf.args[0].value
+    if isinstance(kf, ast.Lambda) and len(kf.args.args) == 1 and isinstance(kf.body, ast.Attribute) and isinstance(kf.body.value, ast.Name) and \
+            kf.body.value.id == kf.args.args[0].arg:
+        return kf.body.attr
+    return None
+
+
 def intervals(rep, idx, rule="C02.6"):
     rm = idx.find_class("_RangeMap")
     nsites = 0
@@ -425,6 +441,11 @@ def intervals(rep, idx, rule="C02.6"):
                 lst = ir.from_ast(n.args[0], {})
                 probe = ir.from_ast(n.args[1], {})
                 lname = lst[2] if lst[0] == 'attr' else None
+                # bisect(self._keys, x, key=<start / stop of a range>) searches the same sorted endpoints that the parallel lists hold
+                kf = next((k_.value for k_ in n.keywords if k_.arg == "key"), None)
+                if kf is not None:
+                    attr = _endpoint_key(kf, fi.module if hasattr(fi, "module") else None)
+                    lname = {"start": "_starts", "stop": "_stops"}.get(attr)
                 pk = probe_kind(probe)
                 if pk is None and probe[0] == 'name':
                     # a local bound once (plain or tuple-unpacking assignment) stands for the expression bound to it
@@ -459,6 +480,23 @@ def intervals(rep, idx, rule="C02.6"):
     ok = s is not None and t is not None and k is not None and len(s[2]) == 2 and len(t[2]) == 2 and len(k[2]) == 2 and \
         s[2][1] == ins.parse("key.start") and t[2][1] == ins.parse("key.stop") and k[2][1] == ('name', 'key') and \
         k[2][0] in (s[2][0], t[2][0]) and _bisect_on(s[2][0], "_starts", "start") and _bisect_on(t[2][0], "_stops", "stop")
+    if not ok and s is None and t is None and k is not None and len(k[2]) == 2 and k[2][1] == ('name', 'key'):
+        # one list of ranges, searched by endpoint through key=: the key goes where its own start (or stop) sorts to
+        pos = k[2][0]
+        src = None
+        for n_ in ast.walk(ins.fi.node):
+            if isinstance(n_, ast.Call) and isinstance(n_.func, ast.Attribute) and n_.func.attr.startswith("bisect") and len(n_.args) >= 2 and \
+                    ast.unparse(n_.args[0]) == "self._keys":
+                kf = next((k_.value for k_ in n_.keywords if k_.arg == "key"), None)
+                attr = _endpoint_key(kf, ins.fi.module) if kf is not None else None
+                if attr in ("start", "stop") and ast.unparse(n_.args[1]) == f"key.{attr}":
+                    src = (attr, n_)
+        binds = [x for x in ast.walk(ins.fi.node) if isinstance(x, ast.Assign) and len(x.targets) == 1 and isinstance(x.targets[0], ast.Name) and
+                 pos[0] == 'name' and x.targets[0].id == pos[1]]
+        if src is not None and (pos[0] != 'name' or (len(binds) == 1 and any(y is src[1] for y in ast.walk(binds[0].value))) or
+                                ins.norm(pos)[0] == 'call'):
+            ok = True
+            rep.note(f"{rule}: insert() keeps one list of ranges sorted by endpoint (bisect with key=...)") if hasattr(rep, "note") else None
     wrong = None
     if s is not None and t is not None and k is not None and len(s[2]) == 2 and len(t[2]) == 2 and len(k[2]) == 2:
         if s[2][1] != ins.parse("key.start") or t[2][1] != ins.parse("key.stop"):
